@@ -103,8 +103,10 @@ def mutate(rng, tree):
     elif k == "child-add":
         new = rng.choice([["x", "new"], ["c", "new"], ["p", "new", "d"], ["t", "", "new", [], []]])
         i = rng.randint(0, len(n[4]))
-        if new[0] == "x" and ((i > 0 and n[4][i - 1][0] == "x") or (i < len(n[4]) and n[4][i][0] == "x")):
-            new = ["t", "", "new", [], []]
+        # a text node next to a text node is allowed: API-built trees keep them apart (chained text nodes), parsed
+        # ones merge them - both are a difference in content
+        if rng.random() < 0.5:
+            i = len(n[4])
         n[4].insert(i, new)
     elif k == "child-remove":
         i = rng.randrange(len(n[4]))
@@ -192,7 +194,7 @@ def impl_compare(case):
 
 def gen_case(rng):
     t = trees.gen_tree(rng, max_depth=3, max_kids=4, nss=["", "", "urn:x", "urn:y"], p_comment=0.15, p_pi=0.1,
-                       text=lambda g: trees.gen_text(g, ws_prob=0.2), inherit_ns=0.8)
+                       text=lambda g: trees.gen_text(g, ws_prob=0.2), inherit_ns=0.8, adjacent_text=rng.random() < 0.3)
     r = rng.random()
     if r < 0.2:
         b, kind = copy.deepcopy(t), "none"
